@@ -444,5 +444,5 @@ PROPS["C05"] = {
 PROPS["C09"] = {
     "streams": [conc_stream("C09", klass=1, scen_fn=arena_scenarios, tag="a"), stress_stream("C09")],
     "trusted_base": ARENA_TRUST,
-    "assumptions": ["the limit is fixed during a run in the model; set_memory_limit racing with interning is exercised by the harness only"],
+    "assumptions": ["under racing limit changes the bound is the highest limit ever in force (a claim may be made against a limit loaded before it was lowered)"],
 }
